@@ -205,3 +205,59 @@ def seeded_multi(ctx, prop, n, **kw):
             tempo.append([r.randrange(1, 20 * res + 2), r.choice([60000, 200000, 1000 * r.randrange(1, 1000)])])
         cases.append({"id": f"{prop}-m{k}", "res": res, "tracks": tracks, "tempo": tempo})
     return cases
+
+
+# ---------------------------------------------------------------------------------------------
+# TrackBuild.tla: the three cursors (tempo events, phrases, notes) of InstrumentTrack.from_chart_lines
+
+TEMPO_VALUES = [120000, 60000, 200000, 90500, 33333]
+
+
+def mc_trackbuild(ctx):
+    """Model-check TrackBuild.tla: the two wrong designs must fail, the scope must hold; returns the terminal states."""
+    from ctx import MachineryError
+    for cfg, inv in (("MC_TrackBuild_carryend", "CursorBehindNextNote"), ("MC_TrackBuild_skipbyend", "SpCursorSound")):
+        bad = ctx.mc("MC_TrackBuild", cfg, allow_violation=True, deadlock=False)
+        if not bad.violated:
+            raise MachineryError(f"TrackBuild.tla: the wrong design {cfg} violates nothing (vacuous model)")
+    ctx.extra["trackbuild_wrong_designs_rejected"] = ["carry the END lookup's tempo index to the next note", "step the star-power cursor by the sustain's end tick"]
+    res = ctx.mc("MC_TrackBuild", ctx.pick("MC_TrackBuild_quick", "MC_TrackBuild"), deadlock=False, timeout=1500)
+    beh = _behaviours(res)
+    if not beh:
+        raise MachineryError("TrackBuild model emitted no behaviour")
+    ctx.extra["trackbuild_behaviours"] = len(beh)
+    return beh
+
+
+def concretise_trackbuild(b, sc, r):
+    """A terminal state of TrackBuild.tla -> (tempo [[tick, n]], body): ticks scaled by sc, one single-lane note per tick."""
+    tempo = [[t * sc, TEMPO_VALUES[k % len(TEMPO_VALUES)]] for k, t in enumerate(b["tempo"])]
+    nls = [("N", n["t"] * sc, k % 5, n["l"] * sc) for k, n in enumerate(b["notes"])]
+    ph = [("S", p["t"] * sc, p["l"] * sc) for p in b["phrases"]]
+    return tempo, nt.interleave(r, nls, ph)
+
+
+def cases_from_trackbuild(ctx, beh, prop, r, limit=None):
+    if limit is not None and len(beh) > limit:
+        beh = r.sample(beh, limit)
+        ctx.count("behaviours_sampled_not_all")
+    out = []
+    for k, b in enumerate(beh):
+        sc = r.choice([1, 1, 7, 100])
+        tempo, body = concretise_trackbuild(b, sc, r)
+        out.append({"id": f"tb{k}", "res": r.choice([192, 480, 3]), "body": body, "tempo": tempo,
+                    "model": {"sp": [o["sp"] for o in b["out"]], "idx": [o["idx"] for o in b["out"]], "outcome": b["outcome"]}})
+    return out
+
+
+def judge_trackbuild(ctx, cases, prop):
+    """Judge by the property's P-level verdict; compare the model's own prediction (A-level, drift only)."""
+    _judge(ctx, [{k: v for k, v in c.items() if k != "model"} for c in cases], prop, "TrackBuild.tla terminal states", max_skip_ratio=0.0)
+    for c in cases[:: max(1, len(cases) // 400)]:
+        rec = nt.observe({k: v for k, v in c.items() if k != "model"}, [prop])
+        want = c["model"]
+        if (want["outcome"] == "ok") != (rec["raised"] == "") or (not rec["raised"] and [n["sp"] for n in rec["notes"]] != want["sp"]):
+            ctx.drift += 1
+            ex = ctx.extra.setdefault("drift_examples", [])
+            if len(ex) < 5:
+                ex.append({"case": c["id"], "model": want, "code": [n["sp"] for n in rec["notes"]], "raised": rec["raised"]})
